@@ -28,6 +28,8 @@ pub enum REv {
     /// not ready until that many octets have been written to this stream's other direction (a peer that sends the rest only
     /// after it has seen the answer to what it sent before)
     WaitOut(usize),
+    /// the peer never sends anything more and never closes
+    Never,
 }
 
 #[derive(Debug, Clone)]
@@ -120,6 +122,7 @@ impl AsyncRead for ScriptStream {
                 Poll::Ready(Err(std::io::Error::new(std::io::ErrorKind::Interrupted, "interrupted")))
             }
             Some(REv::Sleep(_)) => unreachable!(),
+            Some(REv::Never) => Poll::Pending,
             Some(REv::WaitOut(n)) => {
                 let n = *n;
                 let mut sh = me.sh.lock().unwrap();
@@ -379,7 +382,17 @@ pub fn decode_n_notime(st: &State, t: &mut Toks) -> PResult<String> {
     decode_n_on(st, t, true)
 }
 
+/// SDP: as SD, while 40 other decodes of the same process (same runtime) are parked in the middle of a frame body: each has
+/// read a legal prefix announcing 1000 octets and 30 octets of body, and its peer sends nothing more
+pub fn decode_n_parked(st: &State, t: &mut Toks) -> PResult<String> {
+    decode_n_full(st, t, false, 40)
+}
+
 fn decode_n_on(st: &State, t: &mut Toks, notime: bool) -> PResult<String> {
+    decode_n_full(st, t, notime, 0)
+}
+
+fn decode_n_full(st: &State, t: &mut Toks, notime: bool, parked: usize) -> PResult<String> {
     let dict = st.dicts.get(t.next()?).ok_or_else(|| "unknown dict".to_string())?.clone();
     let k = t.usize_dec()?;
     let rs = parse_rscript(t)?;
@@ -391,6 +404,20 @@ fn decode_n_on(st: &State, t: &mut Toks, notime: bool) -> PResult<String> {
     let spawned = (k + stream.r.len()) % 2 == 1;
     let no_time = notime && !stream.r.iter().any(|e| matches!(e, REv::Sleep(_)));
     let fut = async move {
+        let mut others = Vec::new();
+        for j in 0..parked {
+            let d = Arc::clone(&dict);
+            let mut first = vec![1u8, 0, 3, 0xe8];
+            first.extend(std::iter::repeat(j as u8).take(30));
+            let script: VecDeque<REv> = vec![REv::Chunk(first), REv::Never].into();
+            let mut other = ScriptStream::new(script, VecDeque::new(), Arc::new(Mutex::new(Shared::default())));
+            others.push(tokio::spawn(async move {
+                let _ = Codec::decode(&mut other, d).await;
+            }));
+        }
+        for _ in 0..4 * parked.min(1) {
+            tokio::task::yield_now().await;
+        }
         for _ in 0..k {
             let r = Codec::decode(&mut stream, Arc::clone(&dict)).await;
             let mut o = out2.lock().unwrap();
@@ -404,6 +431,9 @@ fn decode_n_on(st: &State, t: &mut Toks, notime: bool) -> PResult<String> {
                 }
             }
             let _ = write!(o, " @{}]", sh2.lock().unwrap().consumed);
+        }
+        for h in others {
+            h.abort();
         }
     };
     let res = if no_time { run_without_time(fut).map(Some) } else if spawned { run_to_end_spawned(fut) } else { run_to_end(fut) };
